@@ -1141,7 +1141,9 @@ func (m *Machine) Remove1(state string, args A) Result {
 // the transition (Executed, Canceled, Queued).
 // Like every mutation method, it will resolve relations and trigger handlers.
 func (m *Machine) Set(states S, args A) Result {
-	if m.disposing.Load() || uint16(m.queueLen.Load()) >= m.QueueLimit {
+	if m.disposing.Load() || m.Backoff() ||
+		uint16(m.queueLen.Load()) >= m.QueueLimit {
+
 		return Canceled
 	}
 	queueTick := m.queueMutation(MutationSet, states, args, nil)
